@@ -200,10 +200,65 @@ def ev_gdd(info, out):
     return []
 
 
+def _dnum(sdate):
+    import datetime
+    y, m, d = [int(x) for x in sdate.split("/")]
+    return datetime.date(y, m, d).toordinal()
+
+
+def ev_schedule(info, out):
+    """C13: the per-day schedule is the scheduled depth on scheduled dates of the window and 0 on every other day"""
+    if info.get("method") != 3:
+        return []
+    dates = [_dnum(d) for d in info["dates"]]; depths = info["depths"]
+    if len(set(dates)) != len(dates):
+        return []           # duplicate dates: the code rejects them
+    s0, e0 = _dnum(info["s"]), _dnum(info["e"])
+    r = Rd(out[1:]); got = r.fl()
+    want = [0.0] * (e0 - s0 + 1)
+    for d, x in zip(dates, depths):
+        if s0 <= d <= e0:
+            want[d - s0] = float(x)
+    if len(got) != len(want):
+        return [V("C13", "schedule", "length", "per-day schedule has %d entries for a window of %d days" % (len(got), len(want)))]
+    for i, (a, b) in enumerate(zip(got, want)):
+        if a != b:
+            return [V("C13", "schedule", "exact", "day %d of the window (%s + %d d): scheduled depth %r but the per-day schedule holds %r (schedule %r)" % (i, info["s"], i, b, a, list(zip(info["dates"], depths))[:8]))]
+    return []
+
+
+def ev_gw_series(info, out):
+    """C19: the daily water-table depth follows the observations: held constant from each observation on (Constant), linearly
+    interpolated by date between observations and held before the first / after the last (Variable)"""
+    if not info.get("present") or info.get("method") not in ("Constant", "Variable") or len(info["dates"]) == 0:
+        return []
+    dates = [_dnum(d) for d in info["dates"]]; vals = [float(v) for v in info["values"]]
+    if len(set(dates)) != len(dates) or dates != sorted(dates):
+        return []
+    s0, e0 = _dnum(info["s"]), _dnum(info["e"])
+    r = Rd(out[1:]); z = r.fl()
+    if len(z) != e0 - s0 + 1:
+        return [V("C19", "gw", "length", "daily water-table series has %d entries for a window of %d days" % (len(z), e0 - s0 + 1))]
+    for i in range(len(z)):
+        d = s0 + i
+        if info["method"] == "Constant":
+            prev = [v for dd, v in zip(dates, vals) if dd <= d]
+            want = prev[-1] if prev else vals[0]
+        else:
+            if d <= dates[0]: want = vals[0]
+            elif d >= dates[-1]: want = vals[-1]
+            else:
+                k = max(j for j in range(len(dates)) if dates[j] <= d)
+                want = vals[k] + (vals[k + 1] - vals[k]) * (d - dates[k]) / (dates[k + 1] - dates[k])
+        if not (abs(z[i] - want) <= 1e-9 * max(1.0, abs(want))):
+            return [V("C19", "gw", "series_" + info["method"].lower(), "day %d of the window: water-table depth %.9g, the observations %r (%s) give %.9g" % (i, z[i], list(zip(info["dates"], vals)), info["method"], want))]
+    return []
+
+
 EVAL = {
     "infiltration": ev_infiltration, "drainage": ev_drainage, "groundwater_inflow": ev_gw_inflow,
     "check_groundwater_table": ev_check_gw, "capillary_rise": ev_capillary, "rainfall_partition": ev_rainfall_partition,
-    "growing_degree_day": ev_gdd,
+    "growing_degree_day": ev_gdd, "schedule": ev_schedule, "gw": ev_gw_series,
 }
 
 
@@ -295,6 +350,35 @@ def rerun(fn, info):
     if fn == "growing_degree_day":
         from aquacrop.solution.growing_degree_day import growing_degree_day
         return ["S", hx(growing_degree_day(info["method"], info["Tupp"], info["Tbase"], info["tmax"], info["tmin"]))]
+    if fn in ("schedule", "gw"):
+        import pandas as pd
+        from suites import inputs as I
+        s0, e0 = I.day(pd.Timestamp(info["s"])), I.day(pd.Timestamp(info["e"]))
+        I.set_mode(True)
+        if fn == "schedule":
+            from aquacrop.entities.irrigationManagement import IrrigationManagement
+            mk = lambda dd, xx: pd.DataFrame({"Date": pd.DatetimeIndex([pd.Timestamp(d) for d in dd]), "Depth": np.array(xx, dtype=float)})
+            irr = IrrigationManagement(3, Schedule=mk(info["dates"], info["depths"]), MaxIrr=100.0)
+            if info.get("prehistory"):
+                irr.Schedule = mk(*info["prehistory"])
+                try:
+                    m0 = I.make_model(s0, e0, I.good_weather(s0, e0), irrigation_management=irr); m0._initialize()
+                except Exception:
+                    pass
+                irr.Schedule = mk(info["dates"], info["depths"])
+            m = I.make_model(s0, e0, I.good_weather(s0, e0), irrigation_management=irr); m._initialize()
+            return ["S"] + tl(m._param_struct.IrrMngt.Schedule).split()
+        from aquacrop.entities.groundWater import GroundWater
+        gw = GroundWater("Y", info["method"], list(info["dates"]), list(info["values"]))
+        if info.get("prehistory"):
+            gw.dates, gw.values = list(info["prehistory"][0]), list(info["prehistory"][1])
+            try:
+                m0 = I.make_model(s0, e0, I.good_weather(s0, e0), groundwater=gw); m0._initialize()
+            except Exception:
+                pass
+            gw.dates, gw.values = list(info["dates"]), list(info["values"])
+        m = I.make_model(s0, e0, I.good_weather(s0, e0), groundwater=gw); m._initialize()
+        return ["S"] + tl(np.asarray(m._param_struct.z_gw, dtype=float)).split()
     raise KeyError(fn)
 
 
